@@ -18,7 +18,7 @@ NONTRIVIAL = {
     "C12": ["C12:release_with_silent_peer", "C12:released_exactly_at_threshold"],
     "C16": ["C16:concurrent_writers_and_early_waiter"],
     "C02": ["C02:multi_block_commit", "C02:round_gap_in_sequence", "C02:first_block_round_gt_1"],
-    "C06": ["C06:with_crash", "C06:async_then_stable"],
+    "C06": ["C06:with_crash", "C06:async_then_stable", "C06:late_boot_timers_out_of_phase"],
     "C07": ["C07:gap_of_2plus_blocks", "C07:retry_observed", "C07:first_sync_target_silent"],
     "C03": ["C03:second_proposal_after_vote", "C03:proposal_after_own_timeout", "C03:unsafe_extension_offered", "C03:vote_via_tc"],
     "C05": ["C05:certified_2chain_with_gap_shown", "C05:commit_as_ancestor"],
@@ -84,10 +84,10 @@ PLANS = {
     },
     "C06": {
         "level": "exploration",
-        "rule": "cluster runs with <= f crashed nodes (s2) or heavy pre-GST delays (s3); oracle: every live node's highest committed round grows in every window W = 6(f+1)*timeout + sync_retry + 2*5s after stabilisation; non-trivial = run with a crash or with an asynchronous prefix; distinct = distinct Core-event fingerprints",
+        "rule": "cluster runs with <= f crashed nodes (s2), heavy pre-GST delays (s3), late-booting nodes whose round timers are out of phase, and s2b: round-1 leader absent + one node booting 0.80..0.98 of a timeout late, in half of the runs with proposals slower (timeout/20..timeout/10) than all other messages (1..10 ms); oracle: every live node's highest committed round grows in every window W = 6(f+1)*timeout + sync_retry + 2*5s after stabilisation; non-trivial = run with a crash or with an asynchronous prefix; distinct = distinct Core-event fingerprints",
         "assumptions": ["bounded restatement of liveness (DESIGN.md C06)", "no frame between live nodes is lost; delays <= timeout/10 after GST"],
-        "quick": [J("cluster", "s2", 48, per_process=3, **C06_PARAMS), J("cluster", "s3", 48, per_process=3, **C06_PARAMS), J("cluster", "s2", 32, per_process=2, equal_stakes=1, **C06_PARAMS)],
-        "thorough": [J("cluster", "s2", 2000, **C06_PARAMS), J("cluster", "s3", 2000, **C06_PARAMS)],
+        "quick": [J("cluster", "s2", 48, per_process=3, **C06_PARAMS), J("cluster", "s3", 48, per_process=3, **C06_PARAMS), J("cluster", "s2", 32, per_process=2, equal_stakes=1, **C06_PARAMS), J("cluster", "s2b", 64, per_process=4, n=4, equal_stakes=1, timeout_ms=1000, hi_ms=30, sync_retry_ms=1000, duration_ms=120000)],
+        "thorough": [J("cluster", "s2", 2000, **C06_PARAMS), J("cluster", "s3", 2000, **C06_PARAMS), J("cluster", "s2b", 3000, per_process=10, n=4, equal_stakes=1, timeout_ms=1000, hi_ms=30, sync_retry_ms=1000, duration_ms=120000)],
     },
     "C07": {
         "level": "fault_enumeration",
